@@ -349,3 +349,30 @@ func VP_C19_Wide() {
 	vpObserveInt("nodes", i)
 	vpReach("end")
 }
+
+// VP_C19_Late: the iterator values are taken while the start node has no
+// children yet; the tree is built afterwards and only then ranged over. An
+// iterator is a function of the node, evaluated when it is ranged.
+func VP_C19_Late() {
+	n := vpCase("n")
+	root := &Node{Name: "n0"}
+	preSeq, postSeq := root.PreOrder(), root.PostOrder()
+	nodes := vpTree(n)
+	root.Children = nodes[0].Children
+	var pre, post []*Node
+	for nd := range preSeq {
+		pre = append(pre, nd)
+		if len(pre) > 4*n+8 {
+			break
+		}
+	}
+	for nd := range postSeq {
+		post = append(post, nd)
+		if len(post) > 4*n+8 {
+			break
+		}
+	}
+	vpAssert(vpSameNodes(pre, vpPre(root, nil)), "PreOrder taken before the tree was built traverses the tree as it is when ranged")
+	vpAssert(vpSameNodes(post, vpPost(root, nil)), "PostOrder taken before the tree was built traverses the tree as it is when ranged")
+	vpReach("end")
+}
